@@ -102,6 +102,7 @@ typedef struct trial {
 	void *hq_tag, *cq_tag;
 	uint8_t *ref; size_t ref_len;      /* read trials: what the descriptor will deliver */
 	int fd_lib, fd_peer, fd_verify;
+	int path_parent;                   /* create_with_io from a channel made with create_with_path: the new channel opens the path itself */
 	char path[64];
 	off_t pos0;
 	size_t budget;                     /* byte budget derived from the smallest high water mark */
@@ -410,7 +411,7 @@ static void setup_transport(trial_t *t, size_t prefill)
 		}
 		t->fd_verify = open(t->path, O_RDONLY);
 		if (t->fd_verify < 0) vf_fail("open scratch: %s", strerror(errno));
-		if (t->ctor == CT_PATH) {
+		if (t->ctor == CT_PATH || t->path_parent) {
 			close(fd);
 			t->pos0 = 0;
 		} else {
@@ -549,10 +550,10 @@ static void make_channels(trial_t *t)
 	}
 	chan_t *c0 = &t->ch[0];
 	int ff = (int)vf_rnd_n(r, 2);
-	if (t->ctor == CT_PATH) {
+	if (t->ctor == CT_PATH || t->path_parent) {
 		int oflag = t->dir == K_READ ? O_RDONLY : (vf_rnd_n(r, 2) ? O_WRONLY : O_RDWR);
 		mode_t mode = 0;
-		if (t->dir == K_WRITE && vf_rnd_n(r, 3) == 0) { unlink(t->path); oflag |= O_CREAT; mode = 0600; close(t->fd_verify); t->fd_verify = -1; }
+		if (t->ctor == CT_PATH && t->dir == K_WRITE && vf_rnd_n(r, 3) == 0) { unlink(t->path); oflag |= O_CREAT; mode = 0600; close(t->fd_verify); t->fd_verify = -1; }
 		c0->fd = -1;
 		c0->io = ff ? dispatch_io_create_with_path_f((dispatch_io_type_t)t->mode, t->path, oflag, mode, t->cq, c0, h_cleanup)
 				: dispatch_io_create_with_path((dispatch_io_type_t)t->mode, t->path, oflag, mode, t->cq, ^(int e) { h_cleanup(c0, e); });
@@ -955,6 +956,7 @@ static void run_chan_trial(trial_t *t)
 	t->mode = (t->transport == TR_FILE && vf_rnd_n(r, 2)) ? DISPATCH_IO_RANDOM : DISPATCH_IO_STREAM;
 	k = vf_rnd_n(r, 100);
 	t->ctor = t->transport == TR_FILE ? (k < 40 ? CT_CREATE : k < 75 ? CT_PATH : CT_WITH_IO) : (k < 75 ? CT_CREATE : CT_WITH_IO);
+	t->path_parent = t->ctor == CT_WITH_IO && t->transport == TR_FILE && k >= 88;
 	k = vf_rnd_n(r, 100);
 	t->close_place = k < 22 ? CP_AFTER_DONE : k < 34 ? CP_RELEASE_ONLY : k < 42 ? CP_BEFORE_ANY : k < 62 ? CP_BETWEEN : CP_IN_FLIGHT;
 	t->close_stop = t->close_place != CP_RELEASE_ONLY && vf_rnd_n(r, 2);
